@@ -1176,4 +1176,52 @@ theorem step_mainOk (v : Variant) (s : St) (l : Label) (h : MainOk s) : MainOk (
         cases hm : s.mpc <;> simp only [hm] at h ⊢ <;> simp_all
 
 
+/-! ### the client's conn over several Reads -/
+
+theorem appReads_established_prefix (evs : List RdEv) (c : TcpConn) (he : c.established = true) :
+    dataOf (appReads c evs) <+: c.stream.flatten := by
+  induction evs generalizing c with
+  | nil => simp [appReads, dataOf]
+  | cons e es ih =>
+    cases e with
+    | timeout => simpa [appReads, connRead, dataOf] using ih c he
+    | go =>
+      cases hs : c.stream with
+      | nil =>
+        have := ih ⟨true, []⟩ rfl
+        simpa [appReads, connRead, he, hs, nextChunk, dataOf] using this
+      | cons d r =>
+        have := ih ⟨true, r⟩ rfl
+        simp only [appReads, connRead, he, hs, nextChunk, dataOf, ↓reduceIte, List.flatten_cons]
+        exact (List.prefix_append_right_inj d).mpr this
+
+theorem clientOpen_established_read {cs rest : List Bytes} (h : clientOpen cs = .established rest) :
+    ∃ m, Frame.readResponse Frame.chunked cs = .ok (true, m) rest := by
+  unfold clientOpen at h
+  split at h <;> simp_all
+
+theorem clientOpen_dialError_read {cs : List Bytes} {m : Bytes} (h : clientOpen cs = .dialError m) :
+    ∃ rest, Frame.readResponse Frame.chunked cs = .ok (false, m) rest := by
+  unfold clientOpen at h
+  split at h <;> simp_all
+
+theorem appReads_fresh_prefix (evs : List RdEv) (cs rest : List Bytes)
+    (h : clientOpen cs = .established rest) :
+    dataOf (appReads ⟨false, cs⟩ evs) <+: rest.flatten := by
+  obtain ⟨m, hm⟩ := clientOpen_established_read h
+  induction evs with
+  | nil => simp [appReads, dataOf]
+  | cons e es ih =>
+    cases e with
+    | timeout => simpa [appReads, connRead, dataOf] using ih
+    | go =>
+      cases hr : rest with
+      | nil =>
+        have := appReads_established_prefix es ⟨true, []⟩ rfl
+        simpa [appReads, connRead, hm, hr, nextChunk, dataOf] using this
+      | cons d r =>
+        have := appReads_established_prefix es ⟨true, r⟩ rfl
+        simp only [appReads, connRead, hm, hr, nextChunk, dataOf, List.flatten_cons, Bool.false_eq_true, ↓reduceIte]
+        exact (List.prefix_append_right_inj d).mpr this
+
 end Hy.Relay
